@@ -76,12 +76,10 @@ func VerifQuotedIdent() {
 
 func VerifRawString() {
 	s := verifNondetString(verifParam("S"))
-	// the property's restriction: a backslash directly before a quote, or at
-	// the very end, cannot be written in a raw string
-	for i := 0; i < len(s); i++ {
-		if s[i] == '\\' {
-			verifAssume(i+1 < len(s) && s[i+1] != '\'')
-		}
+	// the only string that cannot be written is one ending in a backslash
+	// (it would escape the closing quote)
+	if len(s) > 0 {
+		verifAssume(s[len(s)-1] != '\\')
 	}
 	r := spellRaw(s)
 	got, err := Search(r, nil)
@@ -95,6 +93,40 @@ func VerifRawString() {
 	if ok {
 		verifAssert(gs == s, "C14:raw-string-denotes-other-value")
 	}
+}
+
+// VerifRawPair: two raw strings (and a quoted identifier) in one expression:
+// nothing of the first literal may leak into the second.
+func VerifRawPair() {
+	S := verifParam("S")
+	s1 := verifNondetString(S)
+	s2 := verifNondetString(S)
+	if len(s1) > 0 {
+		verifAssume(s1[len(s1)-1] != '\\')
+	}
+	if len(s2) > 0 {
+		verifAssume(s2[len(s2)-1] != '\\')
+	}
+	expr := "[" + spellRaw(s1) + ", " + spellRaw(s2) + ", " + spellQuoted(s1) + "]"
+	got, err := Search(expr, map[string]interface{}{s1: 7.0})
+	verifNote("err", err != nil)
+	verifAssert(err == nil, "C14:raw-string-rejected")
+	if err != nil {
+		return
+	}
+	arr, ok := got.([]interface{})
+	verifAssert(ok && len(arr) == 3, "C14:raw-string-pair-shape")
+	if !ok || len(arr) != 3 {
+		return
+	}
+	a0, ok0 := arr[0].(string)
+	a1, ok1 := arr[1].(string)
+	verifAssert(ok0 && ok1, "C14:raw-string-not-a-string")
+	if ok0 && ok1 {
+		verifAssert(a0 == s1, "C14:raw-string-denotes-other-value")
+		verifAssert(a1 == s2, "C14:second-raw-string-denotes-other-value")
+	}
+	verifAssert(arr[2] == 7.0, "C14:quoted-identifier-selects-other-key")
 }
 
 func VerifLiteral() {
